@@ -52,6 +52,27 @@ func verifyOne(prog *Program, cs *ContractSet, con *Contract, workDir string, ti
 	if con.Trusted {
 		return rep
 	}
+	if con.Opts["mode"] == "bvfp" {
+		bound, tmo := 16, timeoutS
+		if gTier == "thorough" {
+			bound, tmo = 32, 600
+		}
+		if v := con.Opts["bound_"+gTier]; v != "" {
+			fmt.Sscan(v, &bound)
+		}
+		obs, errs := verifyBVFP(prog, con, workDir, bound, tmo)
+		rep.Obligs, rep.Errs = obs, errs
+		rep.Notes = append(rep.Notes, fmt.Sprintf("bounded-domain: %s verified in bit-vector/IEEE-754 mode for slice lengths below 2^%d only", strings.TrimPrefix(con.Key, modPath+"/"), bound))
+		if verbose {
+			for _, o := range rep.Obligs {
+				fmt.Printf("  %-14s %-70s paths=%d %.2fs %s %s\n", o.Status, o.Name, o.Paths, o.Seconds, o.Solver, o.FailKind)
+			}
+			for _, e := range rep.Errs {
+				fmt.Printf("  ENGINE: %s\n", e)
+			}
+		}
+		return rep
+	}
 	x := newExec(prog, cs, fn, con)
 	func() {
 		defer func() {
@@ -167,6 +188,7 @@ func main() {
 	if *timeout > 0 {
 		tmo = *timeout
 	}
+	gTier = *tier
 	t0 := time.Now()
 	switch cmd {
 	case "list":
@@ -245,6 +267,8 @@ func main() {
 		os.Exit(2)
 	}
 }
+
+var gTier = "quick"
 
 func dumpFn(fn *ssa.Function) {
 	fn.WriteTo(os.Stdout)
